@@ -8,26 +8,26 @@ VERIF = Path("/verif")
 props = [json.loads(l) for l in (VERIF / "properties.jsonl").read_text().splitlines() if l.strip()]
 
 TECH = {
-    "C01": "grammar-rule order / configuration rules over the Lark grammar front-end + terminal-language (DFA) comparison",
-    "C02": "exception-discipline (may-raise) rules over handler sets and transformer call sites + regular-language equality of every terminal with the documented language + token-level grammar comparison",
-    "C03": "complete decision-table extraction by finite-domain abstract interpretation of the enum's operator methods; all laws checked exhaustively",
-    "C04": "decision tables of the transformer callbacks by abstract interpretation of the AST over an abstract operand domain (induction premises) + bounded abstract interpretation of the whole pipeline against reference semantics",
-    "C05": "table lemmas (identity, symmetry, monotonicity) on the extracted operator and callback tables",
-    "C06": "raise-condition decision table of or/xor composition + neutrality lemma + abstract interpretation of is_valid_expression on all small trees",
-    "C07": "attach-rule table, string-template analysis of the expression builder and bounded abstract interpretation of collected expressions against the direct reading",
-    "C08": "decision tables of the Boolean callbacks and message builders (invariant preservation) + hidden-state rule + bounded abstract interpretation",
-    "C09": "terminal-language vs callback look-up agreement, selection-loop decision table over abstract part lists, bounded abstract interpretation of multi-part AHB expressions, hidden-state rule",
-    "C10": "abstract interpretation of the resolver on small expressions/package tables against textual substitution, ordering and reachability rules on the call graph",
-    "C11": "ownership/escape rule on memoised values: every value flowing from the cached callable to a return passes a deep copy; memoisation who-may rule",
-    "C12": "order-alignment rule for every gather/zip site, completion-order-API ban, hidden-state/taint rule for context-local data, permutation-invariance of the abstractly interpreted pipeline under all gather schedules",
-    "C13": "abstract interpretation of the validation functions over all small abstract AHB trees against the documented tables + complete decision tables of the status mapping/combination",
-    "C14": "interprocedural parameter-flow rule for soll_is_required on every call edge + SOLL rows of the status table + abstract interpretation of rewritten trees",
-    "C15": "ContextVar typestate rule (set dominates evaluation, own task per element) + abstract interpretation with context copies per gather task",
-    "C16": "handler-coverage rule on every call path to the evaluation + decision table of the handlers + abstract interpretation vs 'Kann' replacement",
-    "C17": "decision table of validate_data_element_valuepool over abstract pools/inputs/parent statuses",
-    "C18": "integer-region decision table of the key classifier, routing/field-coverage rules, bounded abstract interpretation of the result generator",
-    "C19": "schema/model field, nullability and enum round-trip tables read from the AST",
-    "C20": "argument/constant binding, def-use of the compared local time, offset-dependence and exception-coverage rules",
+    "C01": "static analysis: grammar and Lark options discovered by abstract interpretation of the parse function (all paths), rule-order / alias / configuration rules over the compiled grammar (Lark front-end, no parser built), terminal-language comparison by DFA",
+    "C02": "static analysis: regular-language equality of every terminal with the documented language (DFA over the Unicode alphabet), bounded token-sentence comparison of both grammars, abstract interpretation of the parse functions / resolver / validity check with the Lark parser raising each documented exception, on a corpus of malformed and well-formed strings; log-format lint",
+    "C03": "static analysis: complete decision-table extraction by finite-domain abstract interpretation of the enum's operator methods; all laws checked exhaustively on the extracted tables",
+    "C04": "static analysis: decision tables of the transformer callbacks by abstract interpretation over an abstract operand domain (induction premises) + bounded abstract interpretation of the whole pipeline on all small expression trees against reference semantics",
+    "C05": "static analysis: table lemmas (identity, symmetry, monotonicity, attach) on the extracted operator and callback tables + bounded sweep of small trees",
+    "C06": "static analysis: raise-condition decision table of or/xor composition, neutrality lemma, abstract interpretation of is_valid_expression (context-local setter model) and of multi-part AHB expressions on all small trees",
+    "C07": "static analysis: attach-rule table, string-template analysis of the expression builder, bounded abstract interpretation of collected expressions against the direct reading",
+    "C08": "static analysis: decision tables of the Boolean callbacks and message builders, abstract interpretation of format_constraint_evaluation (stub and shipped evaluators), hidden-state rule",
+    "C09": "static analysis: terminal-language vs callback look-up agreement, bounded abstract interpretation of multi-part AHB expressions under both gather schedules against reference selection, hidden-state rule",
+    "C10": "static analysis: abstract interpretation of the resolver (stub and shipped package resolvers) on small expressions / package tables against textual bracketed substitution under both schedules, one-level reachability rule on the call graph, hidden-state rule",
+    "C11": "static analysis: ownership/escape rule on memoised values decided by abstract interpretation of the decorator stack over call histories (miss, hit, eviction, keyword calls, uncopyable trees, in-place edits); purity and who-may-memoise / who-may-unwrap rules",
+    "C12": "static analysis: abstract interpretation of evaluators, providers, resolver, AHB evaluation and validation under in-order and reversed gather schedules with per-task context copies; completion-order-API ban; context-local setter observation; hidden-state rule",
+    "C13": "static analysis: abstract interpretation of validation.py over ~5 800 small abstract AHB trees against the documented tables + complete decision tables of status mapping / combination",
+    "C14": "static analysis: interprocedural parameter-flow rule for soll_is_required on every call edge (incl. objects carrying the flag), SOLL rows of the status table, abstract interpretation of trees vs. their SOLL-rewritten twins, positional vs keyword entry",
+    "C15": "static analysis: ContextVar writer / reader rules, abstract interpretation of validation with context copies per gather task (each element alone vs. in the tree), sequential-await rule, hidden-state rule",
+    "C16": "static analysis: handler-coverage rule on every call path to the evaluation, exception-class table of the composition callbacks, abstract interpretation of trees vs. their 'Kann'-replaced twins",
+    "C17": "static analysis: decision table of validate_data_element_valuepool by abstract interpretation over abstract pools / inputs / parent statuses (direct and through the dispatcher)",
+    "C18": "static analysis: integer-region decision table of the key classifier, abstract interpretation of extraction / union / sanitising and of the bounded result generator, hidden-state rule",
+    "C19": "static analysis: schema/model field, nullability, type and enum tables read from the AST + abstract interpretation of every load hook on sample data (incl. token values, state spellings), hidden-state rule over the schema code",
+    "C20": "static analysis: path-condition analysis by abstract interpretation of evaluate_931..935 (direct and via the context variable) on an abstract datetime: every path's verdict vs. the documented function of the path condition; no raising path",
 }
 LEVEL = {
     "C03": "Complete decision within the trusted base of the abstract interpreter: the 3 x 16 operator cells are extracted from the current AST and every law is checked on all pairs/triples (exhaustive).",
